@@ -2043,8 +2043,18 @@ class Cache:
 
                 # Check for empty directories.
 
-                for dirpath, dirs, files in os.walk(self._directory):
-                    if not (dirs or files):
+                # Walk bottom-up: a directory that holds nothing but empty
+                # directories is empty too.
+
+                empty = set()
+
+                for dirpath, dirs, files in os.walk(
+                    self._directory, topdown=False
+                ):
+                    subdirs = (op.join(dirpath, name) for name in dirs)
+
+                    if not files and all(path in empty for path in subdirs):
+                        empty.add(dirpath)
                         message = 'empty directory: %s' % dirpath
                         warnings.warn(message, EmptyDirWarning)
 
